@@ -313,6 +313,17 @@ def check_vote_weights(p, report):
                   " does not zero the weights at the missing-label mask")
         report.add("R17.2", g.qual, f"weights `{w}` zeroed at missing entries before np.bincount", f"{g.file}:{bc.lineno}",
                    ok, detail=why)
+        # NaN confidences (of labeled entries too) are zeroed as well: a NaN weight makes the whole count NaN
+        nan_zero = [s_ for s_ in stores if isinstance(s_.targets[0], ast.Subscript) and isinstance(s_.value, ast.Constant)
+                    and s_.value.value == 0 and any(isinstance(c, ast.Call) and c01.callname(c) in ("isnan", "np.isnan")
+                                                    and c.args and w in names_in(c.args[0])
+                                                    for c in ast.walk(s_.targets[0].slice))]
+        nan_zero += [s_ for s_ in stores if isinstance(s_.targets[0], ast.Name) and any(
+            isinstance(c, ast.Call) and c01.callname(c) in ("nan_to_num", "np.nan_to_num") for c in ast.walk(s_.value))]
+        report.add("R17.2", g.qual, f"NaN weights in `{w}` are zeroed before np.bincount", f"{g.file}:{bc.lineno}",
+                   bool(nan_zero), detail=f"`{norm_stmt(nan_zero[-1], 70)}`" if nan_zero else
+                   "no store zeroes the entries where the weights are NaN: one NaN confidence of a labeled sample makes "
+                   "the vote counts (and predict_freq / predict_proba built on them) NaN")
     # pairing: positions and weights are flattened in the same, layout-independent order
     flats = []
     for opnd in ([bc.args[0]] if bc.args else []) + ([wexpr] if wexpr is not None else []):
